@@ -28,7 +28,8 @@ EXPLANATION = (
     "weights through the real reduction code (R01.13): the weight of every single cell, whatever code performs the reduction.")
 NOT_DECIDED = ("agreement with finite differences of F on concrete spectra; numpy's floating-point arithmetic; "
                "accuracy of the interpolated gamma.")
-ASSUMPTIONS = ["block loops over a grid axis are folded once; coverage of the axis is refuted by an exact integer witness or accepted when the trip count is ceil(L/b) structurally / on the box [1,240] x ([1,48] + {64,100,1000}) (cijsa/blocks.py)",
+ASSUMPTIONS = ["arrays handed in from outside (frequencies, mode gammas) are not assumed C-contiguous: a store through reshape() of an array that takes its layout from them is a finding",
+               "block loops over a grid axis are folded once; coverage of the axis is refuted by an exact integer witness or accepted when the trip count is ceil(L/b) structurally / on the box [1,240] x ([1,48] + {64,100,1000}) (cijsa/blocks.py)",
                "T-LIB: the temperature grid T_MIN + DT * arange(NT) (qha.tools.arange) is integer-typed when T_MIN and DT are whole numbers: operations that keep an integer element type (numpy.reciprocal without dtype, negative integer powers) are findings",
                
     "T-LIB: numpy.average(weights=w) divides by sum(w); numpy broadcasting as documented",
